@@ -36,7 +36,17 @@ class GroupFacts:
         self.f: FuncInfo = prog.func(f"table.Table.{which}")
         self.defs = Defs(self.f)
         self.body = [s for s in self.f.body if not (isinstance(s, ast.Expr) and isinstance(s.value, ast.Constant))]
-        self._partition()
+        self.partition_error: Optional[str] = None
+        self.nrows = [n for n, lst in self.defs.assigns.items() if any(v is not None and short(v) == "len(self)" for v, _, _ in lst)]
+        self.over = self.f.params[1]
+        self.group_items: List[str] = []
+        self.row_keys: List[str] = []
+        self.over_data: List[str] = []
+        self.part_loop = None
+        try:
+            self._partition()
+        except AnalysisError as e:
+            self.partition_error = str(e)
         self._blocks()
 
     def _err(self, what):
@@ -75,6 +85,8 @@ class GroupFacts:
 
     def partition_problems(self) -> List[Tuple[str, ast.AST]]:
         probs = []
+        if self.partition_error:
+            raise AnalysisError(self.partition_error)
         lp = self.part_loop
         r = is_range_of(lp.iter)
         if r is None or short(r) not in self.nrows:
